@@ -7,6 +7,8 @@ import SluProofs.Props.C14
 import Slu.Model.IluDrop
 import SluProofs.Lemmas.IluDrop
 import SluProofs.Lemmas.QSelect
+import Slu.Model.IluDropU
+import SluProofs.Lemmas.IluDropU
 import Mathlib.Tactic.Ring
 import Mathlib.Tactic.Linarith
 import Mathlib.Algebra.Order.Field.Basic
@@ -1094,3 +1096,100 @@ example : (qselect 7 (#[3, 1, 4, 1, 5, 9, 2] : Array Int) 2) = some (4, #[9, 5, 
 example := qselect_terminates (R := Int) (fun a b h => by omega) #[3, 1, 4, 1, 5, 9, 2] 7 (-3) (by decide) (by decide)
 
 end Slu.QSelect
+
+
+/-! ## The dropping of U entries: `ilu_[sdcz]copy_to_ucol` (Slu/Model/IluDropU.lean) -/
+namespace Slu.IluDropU
+open Slu Slu.Ilu Slu.IluDrop Slu.QSelect
+
+section generic
+variable {K R T : Type} [Inhabited K] [Inhabited R] [LT R] [DecidableLT R] (ops : UOps K R T) (inp : UIn K R T)
+
+/-- **C15 (copy_to_ucol: nothing is invented, nothing is lost).** For every scalar instance and every call whose
+`ucol/usub` can hold the listed rows ("capacity suffices": the memory growth of l.110-121 is not modelled): the
+`(usub, ucol)` pairs stored for column `jcol`, the pairs removed by the second sweep and the pairs dropped by the first
+loop are TOGETHER a permutation of the column's `(perm_r[row], dense[row])` pairs — the stored entries are a sub-multiset
+of the column with values unchanged, and every entry of the column is accounted for exactly once. -/
+theorem dropU_kept_subset (hU : (inp.xusub[inp.jcol]!).toNat + (rowsOf inp).length ≤ inp.ucol.size)
+    (hS : (inp.xusub[inp.jcol]!).toNat + (rowsOf inp).length ≤ inp.usub.size) :
+    (stored inp (copyToUcol ops inp) ++ (copyToUcol ops inp).s2.removed ++
+      (copyToUcol ops inp).s1.dropped.map (fun e => (inp.permR[e.1]!, e.2))).Perm (colPairs ops inp) := by
+  rw [stored_eq ops inp hU hS]
+  obtain ⟨ks, hP, hk, -, -, hS2, -⟩ := dropCore_inv ops inp.milu inp.permR inp.rule inp.dropTol inp.quota inp.n
+    inp.dense inp.work (rowsOf inp)
+  have h0 : (ks.reverse.map (fun e : Nat × K => (inp.permR[e.1]!, e.2))).Perm (ks.map (fun e : Nat × K => (inp.permR[e.1]!, e.2))) :=
+    (List.reverse_perm ks).map _
+  have h1 := hS2.trans (hk ▸ h0)
+  have h2 := hP.map (fun e : Nat × K => (inp.permR[e.1]!, e.2))
+  rw [List.map_append] at h2
+  exact (h1.append_right _).trans h2
+
+/-- **C15 (copy_to_ucol: counts).** `*nnzUj` grows by the number of entries stored; stored + removed by the second
+sweep + dropped by the first loop = number of listed rows; `xusub[jcol+1] = xusub[jcol] + stored`. -/
+theorem dropU_count :
+    (copyToUcol ops inp).nnzUj = inp.nnzUj + (stored inp (copyToUcol ops inp)).length ∧
+    (stored inp (copyToUcol ops inp)).length + (copyToUcol ops inp).s2.removed.length + (copyToUcol ops inp).s1.dropped.length
+      = (rowsOf inp).length ∧
+    (inp.jcol + 1 < inp.xusub.size → 0 ≤ inp.xusub[inp.jcol]! →
+      (copyToUcol ops inp).xusub[inp.jcol + 1]! = inp.xusub[inp.jcol]! + (stored inp (copyToUcol ops inp)).length) := by
+  obtain ⟨ks, hP, hk, -, -, -, -, -, -, hsz, hcnt, -⟩ := dropCore_inv ops inp.milu inp.permR inp.rule inp.dropTol inp.quota inp.n
+    inp.dense inp.work (rowsOf inp)
+  have hl : (stored inp (copyToUcol ops inp)).length = (copyToUcol ops inp).cnt := by simp [stored]
+  have hks : (dropCore ops inp.rule inp.milu inp.dropTol inp.quota inp.n inp.permR inp.dense inp.work (rowsOf inp)).1.kept.size = ks.length := by
+    rw [← Array.length_toList, hk]; simp
+  have hv := hP.length_eq
+  rw [visits_length, List.length_append] at hv
+  refine ⟨by rw [hl]; rfl, ?_, fun h1 h2 => ?_⟩
+  · rw [hl]
+    show (dropCore ops inp.rule inp.milu inp.dropTol inp.quota inp.n inp.permR inp.dense inp.work (rowsOf inp)).2.1.cnt +
+      (dropCore ops inp.rule inp.milu inp.dropTol inp.quota inp.n inp.permR inp.dense inp.work (rowsOf inp)).2.1.removed.length +
+      (dropCore ops inp.rule inp.milu inp.dropTol inp.quota inp.n inp.permR inp.dense inp.work (rowsOf inp)).1.dropped.length = _
+    omega
+  · rw [hl]
+    show (inp.xusub.setIfInBounds (inp.jcol + 1) _)[inp.jcol + 1]! = _
+    rw [get!_set, if_pos ⟨rfl, h1⟩]
+    show (((inp.xusub[inp.jcol]!).toNat + (copyToUcol ops inp).cnt : Nat) : Int) = _
+    rw [Int.natCast_add, Int.toNat_of_nonneg h2]
+
+/-- **C15 (copy_to_ucol: the thresholds).** With the effective arguments of l.91-93 (`NODROP`: `drop_tol = -1`,
+`quota = Glu->n`): every entry dropped by the first loop FAILED `quota > 0 && |u| >= drop_tol`; every entry removed by the
+second sweep has `|u| <= tol` for the threshold `tol` of the second rule (which then ran); every entry stored on exit PASSED
+the first test and, if the second rule ran, has `|u| > tol` (fails `<=`).  Unlike `ilu_?drop_row` there is no index slip:
+the entry moved into a hole is re-examined with its own modulus. -/
+theorem dropU_threshold (hU : (inp.xusub[inp.jcol]!).toNat + (rowsOf inp).length ≤ inp.ucol.size)
+    (hS : (inp.xusub[inp.jcol]!).toNat + (rowsOf inp).length ≤ inp.usub.size) :
+    (∀ e ∈ (copyToUcol ops inp).s1.dropped,
+      keepC ops (effTol ops inp.rule inp.dropTol) (effQuota inp.rule inp.quota inp.n) e.2 = false) ∧
+    (∀ e ∈ (copyToUcol ops inp).s2.removed, ∃ tol, (copyToUcol ops inp).tol = some tol ∧ ops.base.leTol (ops.abs1 e.2) tol = true) ∧
+    (∀ e ∈ stored inp (copyToUcol ops inp),
+      keepC ops (effTol ops inp.rule inp.dropTol) (effQuota inp.rule inp.quota inp.n) e.2 = true ∧
+      ∀ tol, (copyToUcol ops inp).tol = some tol → ops.base.leTol (ops.abs1 e.2) tol = false) := by
+  obtain ⟨ks, hP, hk, hks, hds, hS2, hrm, hkept, -, hsz, hcnt, -⟩ := dropCore_inv ops inp.milu inp.permR inp.rule inp.dropTol
+    inp.quota inp.n inp.dense inp.work (rowsOf inp)
+  refine ⟨hds, hrm, fun e he => ?_⟩
+  rw [stored_eq ops inp hU hS] at he
+  constructor
+  · have hm : e ∈ (dropCore ops inp.rule inp.milu inp.dropTol inp.quota inp.n inp.permR inp.dense inp.work (rowsOf inp)).1.kept.toList :=
+      hS2.subset (List.mem_append_left _ he)
+    rw [hk] at hm
+    obtain ⟨x, hx, rfl⟩ := List.mem_map.mp hm
+    exact hks x (List.mem_reverse.mp hx)
+  · intro tol ht
+    rw [← range_map_get_eq_take _ _ (by
+      show (dropCore ops inp.rule inp.milu inp.dropTol inp.quota inp.n inp.permR inp.dense inp.work (rowsOf inp)).2.1.cnt ≤
+        (dropCore ops inp.rule inp.milu inp.dropTol inp.quota inp.n inp.permR inp.dense inp.work (rowsOf inp)).2.1.a.size
+      omega)] at he
+    obtain ⟨i, hi, rfl⟩ := List.mem_map.mp he
+    exact hkept tol ht i (List.mem_range.mp hi)
+
+/-- **C15 (copy_to_ucol: the SPA is cleaned).** On exit `dense` is zero on every listed row and unchanged elsewhere. -/
+theorem dropU_dense_zeroed (r : Nat) :
+    (copyToUcol ops inp).dense[r]! = if r ∈ rowsOf inp ∧ r < inp.dense.size then ops.zeroK else inp.dense[r]! := by
+  obtain ⟨ks, -, -, -, -, -, -, -, -, -, -, hd⟩ := dropCore_inv ops inp.milu inp.permR inp.rule inp.dropTol
+    inp.quota inp.n inp.dense inp.work (rowsOf inp)
+  show (dropCore ops inp.rule inp.milu inp.dropTol inp.quota inp.n inp.permR inp.dense inp.work (rowsOf inp)).1.dense[r]! = _
+  rw [hd]
+  exact (zeroed_get ops.zeroK (rowsOf inp) inp.dense r).2
+
+end generic
+end Slu.IluDropU
